@@ -55,6 +55,10 @@ func (f *Cond) Call(s *slip.Scope, args slip.List, depth int) (result slip.Objec
 		if result = firstValue(slip.EvalArg(s, clause, 0, d2)); result == nil {
 			continue
 		}
+		switch result.(type) {
+		case *slip.ReturnResult, *GoTo:
+			return result
+		}
 		for i := 1; i < len(clause); i++ {
 			result = slip.EvalArg(s, clause, i, d2)
 			switch result.(type) {
